@@ -196,6 +196,14 @@ def main():
     wrapped = bool(re.search(r"offset\s+as\s+i64", msgs_fn)) or bool(re.search(r"offset\s+as\s+i64", fn_body(sql_w, "pending_welcomes", "fn:pending_welcomes(sqlite)")))
     boolean("sqlOffsetClamped", not wrapped, "mdk-sqlite-storage messages()/pending_welcomes(): offset is not wrapped into a negative i64")
 
+    # ---- C14: tracing sites / error formats / Debug impls go to their own file GeneratedLeak.lean ----
+    sys.path.insert(0, os.path.dirname(os.path.abspath(__file__)))
+    import gen_leak
+    try:
+        leak_summary = gen_leak.summary(gen_leak.generate(REPO))
+    except gen_leak.Missing as e:
+        raise Missing(str(e))
+
     # ---- emit -------------------------------------------------------------------------------
     lines = ["/- GENERATED by tools/gen_model.py from the current /repo source — do not edit. -/",
              "namespace MdkVerif.Generated", ""]
@@ -215,7 +223,9 @@ def main():
     if old != text:
         with open(out, "w") as f:
             f.write(text)
-    json.dump({k: v[1] for k, v in facts.items()}, sys.stdout, indent=0, sort_keys=True)
+    out_facts = {k: v[1] for k, v in facts.items()}
+    out_facts["leakTables"] = json.dumps(leak_summary, sort_keys=True)
+    json.dump(out_facts, sys.stdout, indent=0, sort_keys=True)
     print()
 
 if __name__ == "__main__":
